@@ -99,9 +99,11 @@ type confPlan struct {
 	aname string   // "" with attach=false: plain attach
 	ops   []int    // 0 walk, 2 create, 3 rename
 	names []string // consumed by the picks, in order
+	exts  []string // link targets consumed by the creates (9P2000.u sessions)
 }
 
 var forcedNames []string
+var forcedExts []string // targets of the symbolic links the scripted creates make
 var forcedOps []int
 
 func confinementPlans() []confPlan {
@@ -124,6 +126,11 @@ func confinementPlans() []confPlan {
 	for _, names := range [][]string{{"sub", "|", "..", ".."}, {"sub", "|", "..", "..", "canary"}, {"a", "b", "|", "..", "..", "..", "root-private", "canary"},
 		{"a", "|", "..", "..", "x"}, {"sub", "|", "..", ".", "..", "outerdir", "c2"}} {
 		ps = append(ps, confPlan{ops: []int{8, 8}, names: names})
+	}
+	// a symbolic link made through the protocol whose target leaves the root, then a walk through it
+	for _, ext := range []string{"..", "../", "sub/../..", "./..", "a/b/../../..", "../root-private", "/"} {
+		ps = append(ps, confPlan{ops: []int{2, 8}, names: []string{"up", "up", "canary"}, exts: []string{ext}})
+		ps = append(ps, confPlan{ops: []int{2, 8}, names: []string{"up", "up", "root-private", "canary"}, exts: []string{ext}})
 	}
 	return ps
 }
@@ -208,11 +215,12 @@ func confinementSessions(n int, base string) {
 	root := filepath.Join(outer, "root")
 	plans := confinementPlans()
 	for s := 0; s < n+len(plans); s++ {
-		forcedNames, forcedOps = nil, nil
+		forcedNames, forcedOps, forcedExts = nil, nil, nil
 		var plan *confPlan
 		if s < len(plans) {
 			plan = &plans[s]
 			forcedNames = append([]string{}, plan.names...)
+			forcedExts = append([]string{}, plan.exts...)
 			forcedOps = append([]int{}, plan.ops...)
 		}
 		_ = os.RemoveAll(outer)
@@ -231,8 +239,10 @@ func confinementSessions(n int, base string) {
 		before := snapshot(outer)
 		delete(before, "root")
 		outsideInos := map[uint64]bool{inoOf(outer): true, inoOf(filepath.Join(outer, "canary")): true,
-			inoOf(filepath.Join(outer, "outerdir")): true, inoOf(filepath.Dir(outer)): true, inoOf("/"): true, inoOf(filepath.Join(outer, "x")): true}
-		dotu := s%2 == 0
+			inoOf(filepath.Join(outer, "outerdir")): true, inoOf(filepath.Dir(outer)): true, inoOf("/"): true, inoOf(filepath.Join(outer, "x")): true,
+			inoOf(filepath.Join(outer, "root-private")): true, inoOf(filepath.Join(outer, "root-private", "canary")): true,
+			inoOf(filepath.Join(outer, "rootx")): true, inoOf(filepath.Join(outer, "outerdir", "c2")): true}
+		dotu := s%2 == 0 || (plan != nil && len(plan.exts) > 0)
 		t, err := newTreeSession(root, dotu)
 		if err != nil {
 			continue
@@ -331,9 +341,16 @@ func confinementSessions(n int, base string) {
 				perm := uint64(0o644)
 				ext := ""
 				kind := "F"
-				if dotu && rng.Intn(3) == 0 {
+				if len(forcedExts) > 0 {
+					if dotu {
+						perm |= go9p.DMSYMLINK
+						ext = forcedExts[0]
+						kind = "S " + hxs(ext)
+					}
+					forcedExts = forcedExts[1:]
+				} else if dotu && rng.Intn(3) == 0 {
 					perm |= go9p.DMSYMLINK
-					ext = []string{"f", "../x", "/etc/passwd", "b/../f", "../../canary", "sub"}[rng.Intn(6)]
+					ext = []string{"f", "../x", "/etc/passwd", "b/../f", "../../canary", "sub", "..", "../", "sub/../..", "."}[rng.Intn(10)]
 					kind = "S " + hxs(ext)
 				}
 				fidno++
@@ -547,6 +564,50 @@ func metadataCases(ntrees int, base string) {
 				emit("UR %s => OK %d", hxs(rel), b2i(ok))
 				stat("ufstree.restats", 1)
 			}
+			// a fid that has been OPENED still describes what its path names: a symbolic link stays a
+			// link (the descriptor is open on its target), a name re-bound on disk shows the new object
+			fullMatch := func(d *go9p.Dir, p string) bool {
+				st, e := os.Lstat(p)
+				if e != nil || d == nil {
+					return false
+				}
+				sys := st.Sys().(*syscall.Stat_t)
+				return d.Name == filepath.Base(p) && d.Length == uint64(st.Size()) && d.Mtime == uint32(st.ModTime().Unix()) &&
+					d.Mode&0o777 == uint32(st.Mode().Perm()) && (d.Mode&go9p.DMDIR != 0) == st.IsDir() &&
+					(d.Qid.Type&go9p.QTDIR != 0) == st.IsDir() && (d.Qid.Type&go9p.QTSYMLINK != 0) == (st.Mode()&os.ModeSymlink != 0) &&
+					d.Qid.Path == sys.Ino && (!dotu || (d.Mode&go9p.DMSYMLINK != 0) == (st.Mode()&os.ModeSymlink != 0))
+			}
+			lnk := filepath.Join(root, "zz-link-to-file")
+			_ = os.WriteFile(filepath.Join(root, "zz-target"), []byte("the target of the link"), 0o640)
+			_ = os.Remove(lnk)
+			_ = os.Symlink("zz-target", lnk)
+			for _, p := range []string{lnk, filepath.Join(root, "zz-target")} {
+				rel, _ := filepath.Rel(root, p)
+				fid, err := t.clnt.FWalk(rel)
+				if err != nil {
+					continue
+				}
+				ok := true
+				d, err := t.clnt.Stat(fid)
+				ok = ok && err == nil && fullMatch(d, p)
+				if t.clnt.Open(fid, go9p.OREAD) == nil {
+					d, err = t.clnt.Stat(fid)
+					ok = ok && err == nil && fullMatch(d, p)
+					if p != lnk {
+						// the name is re-bound on disk while the fid is open
+						_ = os.Rename(p, p+".old")
+						_ = os.WriteFile(p, []byte("a new, longer file under the old name"), 0o600)
+						d, err = t.clnt.Stat(fid)
+						ok = ok && err == nil && fullMatch(d, p)
+						_ = os.Remove(p + ".old")
+					}
+				}
+				_ = t.clnt.Clunk(fid)
+				emit("UR %s => OK %d", hxs(rel), b2i(ok))
+				stat("ufstree.restats_open", 1)
+			}
+			_ = os.Remove(lnk)
+			_ = os.Remove(filepath.Join(root, "zz-target"))
 			// qid identity: equal path <=> same inode, over all pairs of listed objects
 			// (checked through the US lines: qpath == ino)
 			// deep paths and missing paths through the client
